@@ -49,6 +49,9 @@ def faults_for(plan: Dict[str, Any], spec: Dict[str, Any]) -> List[Dict[str, Any
         if s["kind"] == "FG":
             out.append({"kind": "calc", "sid": s["sid"], "group": s["group"], "feature": s["names"][0], "msg": "VERIF-FAULT calc"})
             out.append({"kind": "validate_out", "sid": s["sid"], "group": s["group"], "msg": "False"})
+            # a TRANSIENT failure of a calculation wrapped by two pass-through extenders (the composite extender of
+            # function_extender.py): it must be reported although a second execution would succeed
+            out.append({"kind": "calc_once_ext", "sid": s["sid"], "group": s["group"], "feature": s["names"][0], "msg": "VERIF-FAULT calc"})
             if s["group"] in derived:
                 out.append({"kind": "validate_in", "sid": s["sid"], "group": s["group"], "msg": "False"})
         elif s["kind"] == "TFS":
@@ -73,6 +76,9 @@ def run_fault(spec: Dict[str, Any], fault: Dict[str, Any], mode_name: str, strea
     REC.fail_steps = set()
     if fault["kind"] == "calc":
         uni.fail.add((fault["group"], fault["feature"]))
+    elif fault["kind"] == "calc_once_ext":
+        uni.fail_once.add((fault["group"], fault["feature"]))
+        kw["function_extender"] = _pass_through_extenders(2)
     elif fault["kind"] == "validate_in":
         uni.fail_validate_in.add(fault["group"])
     elif fault["kind"] == "validate_out":
@@ -99,7 +105,24 @@ def run_fault(spec: Dict[str, Any], fault: Dict[str, Any], mode_name: str, strea
         res["exc_tail"] = txt[-160:]
     elif o["status"] == "ok":
         res["n_results"] = len(o["result"]) if o.get("result") is not None else None
+    if fault["kind"] == "calc_once_ext":
+        res["executions"] = uni.fail_once_hits.get((fault["group"], fault["feature"]), 0)
     return res
+
+
+def _pass_through_extenders(n: int) -> Any:
+    """n extenders of different priority that wrap every hook and only call through."""
+    from mloda.steward import Extender, ExtenderHook
+    out = set()
+    for k in range(n):
+        def wraps(self: Any) -> Any:
+            return {ExtenderHook.FEATURE_GROUP_CALCULATE_FEATURE, ExtenderHook.VALIDATE_INPUT_FEATURE, ExtenderHook.VALIDATE_OUTPUT_FEATURE}
+
+        def call(self: Any, func: Any, *a: Any, **kw: Any) -> Any:
+            return func(*a, **kw)
+        cls = type(f"VerifPass{k}", (Extender,), {"wraps": wraps, "__call__": call, "priority": 10 * (k + 1)})
+        out.add(cls())
+    return out
 
 
 def run(rep: vlib.Reporter, tier: str, seed: int) -> None:
@@ -150,7 +173,10 @@ def run(rep: vlib.Reporter, tier: str, seed: int) -> None:
         flts = faults_for(plan, spec)
         mp_ok: Optional[bool] = None
         if not big:
+            allf = flts
             flts = rng.sample(flts, min(len(flts), 6))
+            if not any(f_["kind"] == "calc_once_ext" for f_ in flts):
+                flts.append(rng.choice([f_ for f_ in allf if f_["kind"] == "calc_once_ext"]))
         for f in flts:
             for mode_name in (("SYNC", "THREADING") if threading_ok else ("SYNC",)):
                 for stream in (False, True):
